@@ -24,6 +24,9 @@ const (
 
 type ModSet struct {
 	m map[string]ModKind
+	// opaque: the call may reach code without a body (other modules, assumed contracts)
+	// that can return freshly allocated objects whose fields live in heaps outside m
+	opaque bool
 }
 
 func (ms ModSet) Get(name string) (ModKind, bool) {
@@ -44,6 +47,10 @@ func (ms *ModSet) add(name string, k ModKind) bool {
 
 func (ms *ModSet) union(o ModSet) bool {
 	ch := false
+	if o.opaque && !ms.opaque {
+		ms.opaque = true
+		ch = true
+	}
 	for k, v := range o.m {
 		if ms.add(k, v) {
 			ch = true
@@ -393,10 +400,12 @@ func (ma *modAnalysis) commonMods(common *ssa.CallCommon) ModSet {
 		for _, k := range ifaceKey(common.Value.Type(), common.Method) {
 			if fc := cs.Funcs[k]; fc != nil {
 				declared(fc)
+				ms.opaque = !fc.Pure
 				return ms
 			}
 		}
-		// CHA over loaded concrete types
+		// CHA over loaded concrete types (plus implementations outside the loaded packages)
+		ms.opaque = true
 		it, _ := common.Value.Type().Underlying().(*types.Interface)
 		for _, m := range ma.methods[common.Method.Name()] {
 			rt := m.Signature.Recv().Type()
@@ -415,6 +424,7 @@ func (ma *modAnalysis) commonMods(common *ssa.CallCommon) ModSet {
 		return ms
 	}
 	// dynamic call through a function value
+	ms.opaque = true
 	for _, t := range ma.addrTaken[sigKey(common.Signature())] {
 		ms.union(ma.calleeMods(t))
 	}
@@ -450,6 +460,7 @@ func (ma *modAnalysis) calleeMods(fn *ssa.Function) ModSet {
 		for _, m := range fc.Modifies {
 			ms.add(ma.ctx.heapNameOfModifies(m), ModAny)
 		}
+		ms.opaque = true
 		return ms
 	}
 	if o := fn.Origin(); o != nil && o != fn && len(o.Blocks) > 0 {
@@ -466,9 +477,11 @@ func (ma *modAnalysis) calleeMods(fn *ssa.Function) ModSet {
 	}
 	if ro, listed := readOnlyPkgs[pkg]; listed && ro {
 		ma.externUsed["read-only: "+pkg] = true
+		ms.opaque = true
 		return ms
 	}
 	ma.externUsed["type-reach: "+fn.String()] = true
+	ms.opaque = true
 	sig := fn.Signature
 	k := sig.String()
 	if c, ok := ma.reachCache[k]; ok {
